@@ -582,7 +582,7 @@ def part_recover(ctx, sim_files, consts_of, cut_cx):
            'file_sizes': [len(b['data']) for b in sources], 'file_txns': [b['ntx'] for b in sources],
            'files_with_backpointers': sum(1 for b in sources if b['backs']), 'files_packed': sum(1 for b in sources if b['packed']),
            'files_with_uncreation': sum(1 for b in sources if b['zeros']),
-           'by_kind': {}, 'events': {}, 'every_byte_files': every_n, 'cut_outputs': 0, 'aborts_for_missing_hint': 0,
+           'by_kind': {}, 'events': {}, 'rejected': {}, 'every_byte_files': every_n, 'cut_outputs': 0, 'aborts_for_missing_hint': 0,
            'model': {'EmitsCut': emits_cut}, 'directed_runs': len(dres),
            'tlc_counterexample_cut': [str(o) for o in rv.norm(cut_cx.trace[-1]['state'])['out']]}
     batches = par.chunks(list(range(len(results))), max(1, len(results) // 20000 + 1))
@@ -618,6 +618,10 @@ def part_recover(ctx, sim_files, consts_of, cut_cx):
             else:
                 sig = {'tool': 'fsrecover', 'what': why, 'damage': 'none' if res['dmg'][0] == 'none' else 'truncation' if res['dmg'][0] == 'cut' else 'bytes'}
             ev = res['run']['ev']
+            key = repr(sorted(sig.items()))
+            cov['rejected'][key] = cov['rejected'].get(key, 0) + 1
+            if cov['rejected'][key] > 3:          # the same signature: counted, three of them written out as replays
+                continue
             ctx.violation(sig, 'fsrecover.recover on file %d (%d bytes, %d transactions), %s: ZRecoverTrace rejects the run at event %d (%s): %s; '
                           'ended by %s; events %s' % (res['run']['f'], len(sources[res['run']['f'] - 1]['data']), sources[res['run']['f'] - 1]['ntx'],
                                                       dmg_text(res['dmg']), at, why, _ev_text(ev[at - 1]) if 0 < at <= len(ev) else '-',
